@@ -83,7 +83,7 @@ func H_C17_literal(pos, q, n int) {
 // H_C17_literal_pre: a fixed prefix of a placeholder followed by n free bytes.
 func H_C17_literal_pre(pre, q, n int) {
 	qs := []string{"\"", "'"}[q]
-	prefix := []string{"##34", "#OUTQUOTE", "&am", "&#3", "a\\"}[pre]
+	prefix := []string{"##34", "#OUTQUOTE", "&am", "&#3", "a\\", "&&", "x&y&", "&lt;&", "a&b&c"}[pre]
 	body := zzrt.String("b", n)
 	for i := 0; i < len(body); i++ {
 		zzrt.Assume(body[i] < 0x80)
